@@ -26,11 +26,7 @@ def _check_once(assume, extra, timeout_ms, seed):
     s = z3.SolverFor('QF_BV')
     s.set('timeout', int(timeout_ms))
     if seed:
-        for k in ('random_seed', 'sat.random_seed'):
-            try:
-                s.set(k, seed)
-            except z3.Z3Exception:
-                pass
+        s.set('random_seed', seed)
     for a in assume:
         s.add(a)
     for e in extra:
@@ -57,6 +53,17 @@ def _check(assume, extra, timeout_ms):
     return UNKNOWN, total, None
 
 
+def _check_sat(assume, extra, timeout_ms, hints):
+    """a query expected satisfiable: first with the under-approximating hints (sound for SAT only), then in full"""
+    if hints:
+        v, dt, m = _check_once(assume, list(extra) + list(hints), min(timeout_ms, 20000), 0)
+        if v == SAT:
+            return v, dt, m
+        v2, dt2, m2 = _check(assume, extra, timeout_ms)
+        return v2, dt + dt2, m2
+    return _check(assume, extra, timeout_ms)
+
+
 def discharge(ob, timeout_ms=120000, stop_at_first=True, group_goals=True, case_mode=False):
     """returns list of QResult.  Queries:
        fault          : assume /\\ fault                       expect unsat
@@ -67,7 +74,8 @@ def discharge(ob, timeout_ms=120000, stop_at_first=True, group_goals=True, case_
     res = []
     A = list(ob.assume)
     # vacuity of the precondition itself
-    v, dt, m = _check(A, [], timeout_ms)
+    hints = getattr(ob, 'sat_hints', None) or []
+    v, dt, m = _check_sat(A, [], timeout_ms, hints)
     if case_mode and v == UNSAT:
         # one case of an exhaustive split may be empty; vacuity is judged over the union of the cases
         res.append(QResult('pre.satisfiable', UNSAT, v, dt))
@@ -88,7 +96,7 @@ def discharge(ob, timeout_ms=120000, stop_at_first=True, group_goals=True, case_
         if v == SAT and stop_at_first:
             return res
     for lab, (pc, goals) in ob.exits.items():
-        v, dt, m = _check(A, [bb(pc)], timeout_ms)
+        v, dt, m = _check_sat(A, [bb(pc)], timeout_ms, hints)
         if case_mode and v == UNSAT:
             res.append(QResult(f'reach:{lab}', UNSAT, v, dt))
             continue
